@@ -319,3 +319,25 @@ PROPS["C13"] = dict(
     assumptions=["go-yaml's per-document round trip is sampled, not proved", "package paths are slash-separated (the in-memory FS)"],
     design_ref="DESIGN.md §5 C13",
 )
+
+PROPS["C19"] = dict(
+    title="Deprecated field spellings build to the same output as their replacements",
+    modules=["Kust.Props.C19"],
+    theorems=["Kust.C19.fixLoad_idem", "Kust.C19.fixLoad_no_deprecated", "Kust.C19.rewriteLoad_fix", "Kust.C19.load_spelling_same_build",
+              "Kust.C19.bases_eq_resources", "Kust.C19.imageTags_eq_images", "Kust.C19.env_eq_envs",
+              "Kust.C19.mergeAll_append", "Kust.C19.mergeAll_nil", "Kust.C19.default_table_distinct",
+              "Kust.C19.commonLabels_step_eq", "Kust.C19.label_steps_fix", "Kust.C19.run_swap", "Kust.C19.disjoint_commute",
+              "Kust.C19.plan_shape", "Kust.C19.editfix_preserves_build"],
+    components=["fix.load", "fix.pre", "fix.mergeall"],
+    oracle=True,
+    n_corr={"quick": 3000, "thorough": 40000}, n_oracle={"quick": 150, "thorough": 2500},
+    technique="Lean 4 proof (FixKustomization is idempotent and is the rewrite; the label entry made by edit fix configures the same run as commonLabels for every configuration with distinct specs, the regenerated default tables are distinct; edit fix = a reordering of runs, which preserves the result when the moved runs commute with the crossed ones; disjoint footprints commute) + Go/Lean correspondence of FixKustomization, FixKustomizationPreMarshalling, FsSlice.MergeAll + regenerated transformer order + whole-build oracle over spelling subsets and RunFix",
+    level_text="PARTIAL. Theorems hold for every kustomization, transformer configuration and run semantics: load-time spellings reach the build as the same object; "
+               "commonLabels and labels/includeSelectors configure the same label run (needs no `labels:` section in a custom configuration and pairwise distinct specs; "
+               "decided for the regenerated default tables); edit fix moves strategic-merge patches after patches+JSON patches and JSON patches before "
+               "namespace/prefix/suffix/labels/annotations, and the build is unchanged when the moved runs commute with those they cross, which disjoint read/write "
+               "footprints guarantee. The effect of one transformer run is a parameter (not modelled here): equality of real builds is sampled by the oracle.",
+    level_note=COMMON_NOTE + "The label configurator and plan are modelled by hand from kusttarget_configplugin.go (order regenerated); helm fields are outside the model.",
+    assumptions=["a strategic-merge/JSON patch is the same run under either field (sampled by the oracle)", "no custom `labels:` field-spec section"],
+    design_ref="DESIGN.md §5 C19",
+)
